@@ -89,15 +89,58 @@ def run(tier, seed, drv):
                 res.case(f"late-components:{si}:{sorted(delays.items())}:{b}", nontrivial=True)
                 res.count("late-components")
                 SC.check_run(s2, run_, drv, res, monitors_on=("initial_tick", "device_order", "inputs_latest"), corr=("ticker",), case_extra={"bus": b})
+    partition_part(res, seed)
     res.rule = ("4 hand-written shapes named by the property (unfed inner device exposed outward; system without external inputs; depth 3 without "
                 "inputs/expose; pass-through expose) + corpus + generated flat/nested configurations (depth <= 3), each under the synchronous and a "
                 "delaying bus, initial times 0/7/1e6/-5; the initial tick is compared with the Lean whole-simulation model and monitored directly "
-                "(every device once, at t0, in dependency order, inputs = latest upstream outputs); the 4 shapes also with a late master scheduler and an interrupt of an input-less device (at any depth) raised before it is up, and with the scheduler first and the components (systems included) joining late one after another. non-trivial = more than one device")
+                "(every device once, at t0, in dependency order, inputs = latest upstream outputs); the 4 shapes also with a late master scheduler and an interrupt of an input-less device (at any depth) raised before it is up, and with the scheduler first and the components (systems included) joining late one after another; a configuration file of shipped devices built by build_simulation, undivided and divided over 2-7 simulations on one bus (6 partitions x 3 start orders). non-trivial = more than one device")
     return res
+
+
+def partition_part(res, seed):
+    """a configuration FILE (shipped Source / Sink devices, a system simulation with a fed and an unfed inner device, a
+    pass-through port and a second level) built by tickit's own `build_simulation`, undivided and DIVIDED over several
+    simulations that share the in-process state interface (scheduler here, components there; `components_to_run`): the
+    initial tick must update every device at every depth once, at the initial time, with its upstream's initial output -
+    wherever the component is hosted and in whatever order the parts come up"""
+    import dist_sim as D
+    ent = D.entries_basic()
+    devs = D.all_device_names(ent)
+    ref = None
+    for pi, parts in enumerate(D.partitions(ent)):
+        for gaps in ([0] * len(parts), [3 * i for i in range(len(parts))], [3 * (len(parts) - i) for i in range(len(parts))]):
+            if pi == 0 and any(gaps):
+                continue
+            r = D.run_partition(ent, parts, start_gaps=gaps)
+            pd = D.per_device(r["log"])
+            case = {"partition": parts, "gaps": gaps, "entries": "basic"}
+            res.case(f"partition:{pi}:{gaps}", nontrivial=len(parts) > 1)
+            res.count("partitioned-build")
+            for e in r["errors"]:
+                res.violate(V("exception-escaped", e[:200], site="build_simulation/run"), case)
+            for d in devs:
+                ups = pd.get(d, [])
+                if len(ups) != 1 or ups[0][0] != 0:
+                    res.violate(V("initial-tick-incomplete", f"device {d} updated {[(t, i) for t, i in ups]} in the initial tick of the configuration "
+                                  f"divided as {r['built']} (start gaps {gaps}); expected exactly one update at time 0", site="partitioned", device=d), case)
+            if ref is None:
+                ref = pd
+            elif pd != ref and not [1 for d in devs if len(pd.get(d, [])) != 1]:
+                diff = {d: (pd.get(d), ref.get(d)) for d in devs if pd.get(d) != ref.get(d)}
+                res.violate(V("initial-inputs-differ", f"divided as {r['built']} the initial tick gives {diff} (second: undivided run)", site="partitioned"), case)
 
 
 def replay(payload, drv):
     c = payload["case"]
+    if c.get("partition"):
+        import dist_sim as D
+        ent = D.entries_basic()
+        r = D.run_partition(ent, c["partition"], start_gaps=c.get("gaps"))
+        pd = D.per_device(r["log"])
+        bad = [d for d in D.all_device_names(ent) if len(pd.get(d, [])) != 1]
+        ref = D.per_device(D.run_partition(ent, D.partitions(ent)[0])["log"])
+        return {"observed": {k: v for k, v in pd.items()}, "built": r["built"],
+                "violations": ([V("initial-tick-incomplete", f"{bad}")] if bad else []) + ([V("initial-inputs-differ", "")] if not bad and pd != ref else [])}
     res = Result()
     run_ = run_scenario(c["scenario"], bus=c.get("bus", "sync"), seed=payload.get("seed", 0))
     SC.check_run(c["scenario"], run_, drv, res, monitors_on=("initial_tick", "device_order", "inputs_latest"), corr=("sim",))
